@@ -30,6 +30,7 @@ class Config:
     batch: int = 2
     stutter: bool = False
     context: Optional[tuple] = None  # tuple of (key, value)
+    emit: tuple = ()                 # tuple of (node index, emit pattern) - C19
 
     def to_json(self):
         d = asdict(self)
@@ -42,13 +43,14 @@ class Config:
         return Config(spec=spec, requested=tuple(tuple(r) for r in d['requested']),
                       precached=tuple(d['precached']), faults=tuple(d['faults']), died=tuple(d['died']),
                       bust_cache=d['bust_cache'], cof=d['cof'], batch=d['batch'], stutter=d['stutter'],
-                      context=None if d['context'] is None else tuple(tuple(x) for x in d['context']))
+                      context=None if d['context'] is None else tuple(tuple(x) for x in d['context']),
+                      emit=tuple(tuple(x) for x in d.get('emit', ())))
 
     def brief(self):
         return {'deps': self.spec.deps, 'types': self.spec.types, 'place': self.spec.place,
                 'labels': self.spec.labels, 'dup': self.spec.dup, 'requested': self.requested,
                 'precached': self.precached, 'faults': self.faults, 'died': self.died,
-                'bust': self.bust_cache, 'cof': self.cof}
+                'bust': self.bust_cache, 'cof': self.cof, **({'emit': self.emit} if self.emit else {})}
 
 
 @dataclass
